@@ -732,22 +732,46 @@ def r16c(ctx, rep):
                 "radix %d prints with %s, expected %s" % (v, sel.get(v), nm), [ns.span])
 
 
-def r16e(ctx, rep):
+def r16e(ctx, rep, rule="R16e"):
     facts = ctx["facts"]
-    rep.rule("R16e", "the decimal printer does not squeeze a float through a machine integer: <Number as Display>::fmt "
-             "contains no float-to-int cast (which saturates beyond 2^63, so a large integral float would print as "
+    rep.rule(rule, "the decimal printer does not squeeze a float through a machine integer: <Number as Display>::fmt and the "
+             "number-module helpers it calls to choose a spelling (is_integer, ...) contain no float-to-int cast or "
+             "ToPrimitive conversion of a float (which saturates beyond 2^63, so a large integral float would print as "
              "i64::MIN/MAX and read back as a different number). The radix printers are exempt: C16 restricts inexact "
              "numbers to radix 10.")
-    fn = need(rep, "R16e", facts, "<marwood::number::Number as std::fmt::Display>::fmt")
+    fn = need(rep, rule, facts, "<marwood::number::Number as std::fmt::Display>::fmt")
     if fn is None:
         return
-    casts = [(s["rv"]["from"], s["rv"]["to"], s["loc"]) for bb, j, s in fn.stmts() if s["rv"]["k"] == "cast" and s["rv"]["ck"] == "FloatToInt"]
-    if casts:
-        rep.fail("R16e", "R16e|Display|float-to-int", "Display for Number casts %s to %s while printing: a finite float beyond "
-                 "the integer's range saturates and its printed form reads back as a different number" % (casts[0][0], casts[0][1]),
-                 [c[2] for c in casts])
+    cg = ctx["cg"]
+    # the printer and the helpers of the number module it decides the spelling with (is_integer, ...)
+    scope = [fn.path]
+    seen = {fn.path}
+    while scope:
+        x = scope.pop()
+        for y in cg.out.get(x, ()):
+            if y not in seen and y.startswith("marwood::number::") and y in facts.fns and "as std::fmt::" not in y.replace(fn.path, ""):
+                seen.add(y)
+                scope.append(y)
+    import re as _re
+    bad = []
+    for p_ in sorted(seen):
+        g = facts.fns[p_]
+        for bb, j_, st in g.stmts():
+            if st["rv"]["k"] == "cast" and st["rv"]["ck"] == "FloatToInt":
+                bad.append((g, "casts %s to %s" % (st["rv"]["from"], st["rv"]["to"]), st["loc"]))
+        for bb, t in g.calls():
+            fa = t.get("fnargs") or callee(t) or ""
+            if _re.search(r"<f(32|64) as .*ToPrimitive>::to_[iu](8|16|32|64|128|size)$", fa):
+                bad.append((g, "converts a float with %s" % fa.rsplit("::", 1)[-1], t["loc"]))
+    rep.floor(rule, "functions deciding the decimal spelling (Display::fmt and its number-module callees)", len(seen), 2)
+    if bad:
+        for g, what, loc in bad:
+            rep.fail(rule, "%s|%s|float-to-int" % (rule, "Display" if g is fn else g.short), "%s %s while deciding how a number is "
+                     "printed: a finite float beyond the integer's range saturates (or is rejected), so its printed form is that of "
+                     "a different number or of an exact one" % (g.short, what), [loc])
     else:
-        rep.ok("R16e", "R16e|Display|float-to-int", "Display for Number formats floats without an integer cast", [fn.span])
+        rep.ok(rule, "%s|Display|float-to-int" % rule, "the decimal printer and the %d number-module helpers it calls (%s) handle floats "
+               "without converting them to a machine integer" % (len(seen) - 1, ", ".join(sorted(short_path(x).rsplit("::", 1)[-1] for x in seen if x != fn.path))[:200]), [fn.span])
 
 
 def r16f(ctx, rep):
